@@ -50,6 +50,9 @@ CHECKS = {
     "C20": ("exploration", "runtime monitoring: the same design compiled through every entry point / container / equal re-formatting, sha256 equality oracle",
             "Each Glyphs file or UFO is compiled by the CLI, by the library entry points (path and in-memory text, built from the same rlibs in the same workspace), from an independently split .glyphspackage, from a one-source designspace carrying the same public.* keys, and from re-formatted but equal text; all outputs must be byte-identical to the CLI's.",
             "The re-emitters change whitespace, plist key order, XML attribute order and optional quoting of identifier-like strings only; a route whose re-emitted source is rejected counts inconclusive. A designspace cannot express 'no axes', the wrapper uses a point axis with a private tag.", "DESIGN.md §5 C20"),
+    "C12": ("exploration", "runtime monitoring: the same source built under all 16 component-option subsets, every glyph drawn at masters and random locations and compared with the fully decomposed build",
+            "Generated sources with nested, scaled / flipped / rotated (within and beyond +-2), mixed and non-export components are compiled under every subset of {flatten, decompose-all, decompose-transformed, prefer-simple-glyphs=false}; resolved outlines (contours up to start point / direction) and advances must agree with the decompose-all build within the property's rounding bound at every master, and within a looser bound in between.",
+            "skrifa only renders (resolves components, applies gvar); the tolerance per nesting level is 1.05 units plus 2 x (scale-1) for scaled components whose base-glyph rounding is magnified; off-master locations use a looser bound (gross changes only).", "DESIGN.md §5 C12"),
 }
 
 NOT_YET = {}
